@@ -336,3 +336,4 @@ mod pool_tests {
     );
   }
 }
+#[cfg(rzmq_verif)] #[path = "../verif/uring_pool_access.rs"] pub(crate) mod verif_access;
